@@ -31,7 +31,7 @@ def gene_pool(r, quick=True, n_generated=None):
     pool = [{"kind": "toy", "genome": "hg19"}, {"kind": "toy", "genome": "hg38"}]
     n_generated = n_generated if n_generated is not None else (24 if quick else 150)
     for i in range(n_generated):
-        pool.append({"kind": "generated", "genome": r.choice(["hg19", "hg38"]), "yaml": gen_gene.gen_gene(r)})
+        pool.append({"kind": "generated", "genome": r.choice(["hg19", "hg38"]), "yaml": gen_gene.with_delins(r, gen_gene.gen_gene(r)) if i % 2 else gen_gene.gen_gene(r)})
     ship = SMALL_SHIPPED if quick else SMALL_SHIPPED + ["cyp2d6", "dpyd", "cyp1a2", "cyp2e1", "ugt1a1", "g6pd", "vkorc1"]
     for nme in (r.sample(ship, 3) if quick else ship):
         if os.path.exists(os.path.join(lib.REPO, f"aldy/resources/genes/{nme}.yml")):
